@@ -408,7 +408,15 @@ def run_jobs(ws, jobs, workdir, max_par=14, mem_budget_gb=52, progress=None):
 def trace_for(res, prop, timeout=900, mem_gb=20):
     """Re-runs CBMC for one failing property with --trace and returns the nondet inputs
     (values returned by kani::any_raw*), in program order, as lists of byte values."""
-    cmd = list(res.cbmc_cmd) + ["--property", prop, "--trace", "--json-ui"]
+    # no --slice-formula here: slicing drops the assignments of inputs the failing property does not
+    # depend on, and the replay needs EVERY kani::any() value, in call order
+    base = [c for c in res.cbmc_cmd if c != "--slice-formula"]
+    if ".unwind." in prop:
+        # unwinding assertions are created during symbolic execution and cannot be selected with
+        # --property: ask for all traces and pick the one wanted
+        cmd = base + ["--trace", "--json-ui"]
+    else:
+        cmd = base + ["--property", prop, "--trace", "--json-ui"]
     outp = res.goto + ".trace.json"
     with open(outp, "w") as f:
         p = subprocess.Popen(cmd, stdout=f, stderr=subprocess.DEVNULL, preexec_fn=_limits(mem_gb))
